@@ -67,8 +67,8 @@ FAULT_PROPS = {
     "SHAPE_DISJOINT": {"C13", "C18"},
     "DROP_LEDGER": {"C02", "C10", "C04"},
     "PROVIDED": {"C09", "C10", "C08"},
-    "SHAPE_DICT": {"C01", "C03", "C05", "C10", "C11", "C13", "C14", "C15", "C16"},
-    "SHAPE_SET": {"C03", "C05", "C07", "C08", "C10", "C14", "C15", "C16"},
+    "SHAPE_DICT": {"C01", "C03", "C05", "C09", "C10", "C11", "C12", "C13", "C14", "C15", "C16"},
+    "SHAPE_SET": {"C03", "C05", "C07", "C08", "C09", "C10", "C12", "C14", "C15", "C16"},
     "DUP_KEY": None,  # every property quantifies over reachable states, and those have pairwise different keys
     "EXTEND_REF": {"C16"},
     "MIRI": None,
@@ -129,6 +129,9 @@ def setup():
     if not ok:
         log("setup: harness build failed")
         return 1
+    # warm the two extra builds the checks use (their absence is not an error here: the checks build them on demand)
+    build_harness(std=True)
+    sh(f"cd {ROOT}/harness && RUSTFLAGS='-C instrument-coverage' cargo +nightly build --offline --target-dir {CACHE}/target-cov 2>&1", timeout=900)
     log("setup ok")
     return 0
 
@@ -309,7 +312,10 @@ def add_faults(base_cases, tmp, kinds=(1, 2, 3, 4), limit=None):
             pos += [(4, k) for k in range(n_call)]
         uns = gen.has_unsafe_ops(line)
         for fk, fa in pos:
-            if uns:
+            if uns and fk != 1:
+                # (not for == faults: their position is keyed by the comparison counter, and a harmless change of the
+                # NUMBER of comparisons would move the panic, let the history drift out of the contract of the unsafe
+                # fast paths and crash a correct build; Clone / Drop / closure positions are observable behaviour)
                 unsafe_idx.append((len(out), line, fk, fa))
             out.append(gen.case_with_fault(line, fk, fa))
     if unsafe_idx:
@@ -461,6 +467,116 @@ def surface_check(prop=None):
     return [e for e in missing if e.split(":")[0] in files]
 
 
+LLVM_BIN_GLOB = os.path.expanduser("~/.rustup/toolchains/nightly-*/lib/rustlib/*/bin")
+
+
+def property_files(prop):
+    """the files of /repo/src a property is anchored in (None: the whole crate -- the properties about global
+    invariants / every operation)"""
+    if prop in (None, "C02", "C04", "C05", "C17"):
+        return None
+    for ln in open(ROOT + "/properties.jsonl"):
+        pj = json.loads(ln)
+        if pj["id"] == prop:
+            return set(f[len("src/"):] if f.startswith("src/") else f for f in pj["anchors"]["files"])
+    return None
+
+
+def coverage_suite():
+    """a FIXED set of histories (fixed seed: what it reaches depends only on /repo): a slice of every property's
+    quick suite, the panic slice with every fault position"""
+    cases = []
+    for k in range(1, 21):
+        pr = "C%02d" % k
+        su = gen.suite(pr, random.Random(7700 + k), "quick")
+        cases += su[:120] + su[120::9]
+    pb = gen.panic_slice_bases()
+    cases += add_faults(pb, CACHE + "/run/covps", (1, 2, 3, 4), None)
+    adv = [rand_adv for rand_adv in gen.suite("C17", random.Random(7799), "quick")[:200]]
+    return cases + adv
+
+
+def coverage_tie(prop, own_cases_path, tmp):
+    """Region coverage of /repo/src by the correspondence runs (llvm source-based coverage, nightly toolchain): every
+    code region must be ENTERED by the fixed coverage suite, this property's own cases or the shape scenarios, except
+    the regions listed in coq/COVERAGE_KNOWN.tsv (dead in the crate itself, or error propagation of a failing
+    serializer).  A region of the property's files that nothing enters is code the model's tie does not reach.
+    returns (list of unentered regions not known, info dict) or (None, reason) when the tooling is unavailable."""
+    import glob
+    bins = sorted(glob.glob(LLVM_BIN_GLOB))
+    bins = [b for b in bins if os.path.exists(b + "/llvm-cov") and os.path.exists(b + "/llvm-profdata")]
+    if not bins:
+        return None, "llvm-cov / llvm-profdata not found under the nightly toolchain"
+    B = bins[-1]
+    r = sh(f"cd {ROOT}/harness && RUSTFLAGS='-C instrument-coverage' cargo +nightly build --offline --target-dir {CACHE}/target-cov 2>&1", timeout=900)
+    exe = f"{CACHE}/target-cov/debug/mm-harness"
+    if r.returncode != 0 or not os.path.exists(exe):
+        return None, "instrumented build failed: " + r.stdout[-300:]
+    d = tmp + ".cov"
+    sh(f"rm -rf {d}; mkdir -p {d}")
+    with open(d + "/fixed.cases", "w") as f:
+        f.write("\n".join(coverage_suite()) + "\n")
+    env = dict(ENV)
+    for i, (cp, lim) in enumerate(((d + "/fixed.cases", 600), (own_cases_path, 600))):
+        env["LLVM_PROFILE_FILE"] = f"{d}/r{i}-%p.profraw"
+        try:
+            subprocess.run([exe, cp, d + f"/f{i}", d + f"/m{i}"], stdout=subprocess.DEVNULL, stderr=subprocess.DEVNULL, env=env, timeout=lim)
+        except subprocess.TimeoutExpired:
+            pass
+    env["LLVM_PROFILE_FILE"] = f"{d}/s-%p.profraw"
+    try:
+        subprocess.run([exe, "--shapes", d + "/sf"], stdout=subprocess.DEVNULL, stderr=subprocess.DEVNULL, env=env, timeout=300)
+    except subprocess.TimeoutExpired:
+        pass
+    r = sh(f"{B}/llvm-profdata merge -sparse {d}/*.profraw -o {d}/cov.profdata && {B}/llvm-cov export -format=text "
+           f"-instr-profile {d}/cov.profdata {exe} --ignore-filename-regex='(registry|rustc|/harness/)' > {d}/cov.json", timeout=600)
+    if r.returncode != 0:
+        return None, "llvm-cov failed: " + (r.stdout + r.stderr)[-300:]
+    data = json.load(open(d + "/cov.json"))["data"][0]
+    reg = {}
+    for fn in data["functions"]:
+        names = fn["filenames"]
+        for (l1, c1, l2, c2, cnt, fid, efid, kind) in fn["regions"]:
+            if kind != 0:
+                continue
+            fl = names[fid]
+            if not fl.startswith(REPO + "/src/"):
+                continue
+            k = (fl, l1, c1, l2, c2)
+            reg[k] = reg.get(k, 0) + cnt
+    known = set()
+    try:
+        for ln in open(COQ + "/COVERAGE_KNOWN.tsv"):
+            if ln.startswith("#") or "\t" not in ln:
+                continue
+            a, b, c = ln.rstrip("\n").split("\t")[:3]
+            known.add((a, b, c))
+    except OSError:
+        pass
+    files = property_files(prop)
+    src = {}
+    unent, new = [], []
+    for (fl, l1, c1, l2, c2), cnt in sorted(reg.items()):
+        if cnt:
+            continue
+        L = src.setdefault(fl, open(fl).read().split("\n"))
+        line = L[l1 - 1] if l1 - 1 < len(L) else ""
+        txt = (line[c1 - 1:c2 - 1] if l1 == l2 else line[c1 - 1:]).strip()[:80]
+        rel = os.path.relpath(fl, REPO + "/src")
+        key = (rel, txt, " ".join(line.split())[:120])
+        unent.append(key + (l1,))
+        if key not in known and (files is None or rel in files):
+            new.append(key + (l1,))
+    info = {"regions_of_repo_src": len(reg), "regions_entered": len(reg) - len(unent), "regions_never_entered": len(unent),
+            "of_which_listed_in_COVERAGE_KNOWN": len([u for u in unent if u[:3] in known]),
+            "functions_of_repo_src_executed": "%d/%d" % (
+                sum(f["summary"]["functions"]["covered"] for f in data["files"] if f["filename"].startswith(REPO + "/src/")),
+                sum(f["summary"]["functions"]["count"] for f in data["files"] if f["filename"].startswith(REPO + "/src/")))}
+    sh(f"rm -rf {d}")
+    return new, info, unent
+
+
+
 def rust_code_only(src):
     """strip // comments (incl. doc comments) and string literals, drop #[cfg(test)] tails"""
     src = src.split("#[cfg(test)]")[0]
@@ -480,10 +596,11 @@ def nostd_check():
     When the nightly toolchain can expand the crate, the expansion must carry #![no_std] too.
     returns (ok, text)"""
     for feats in ("", "serde", "std", "serde std"):
-        r2 = sh("cd " + REPO + " && CARGO_TARGET_DIR=" + CACHE + "/target-nostd cargo build --lib --offline --no-default-features"
-                + (f' --features "{feats}"' if feats else "") + " 2>&1", timeout=900)
-        if r2.returncode != 0:
-            return False, f"cargo build --lib --no-default-features --features '{feats}' failed:\n" + r2.stdout[-1500:]
+        for rel in ("", " --release"):      # code can be selected by cfg(debug_assertions) as well as by features
+            r2 = sh("cd " + REPO + " && CARGO_TARGET_DIR=" + CACHE + "/target-nostd cargo build --lib --offline --no-default-features" + rel
+                    + (f' --features "{feats}"' if feats else "") + " 2>&1", timeout=900)
+            if r2.returncode != 0:
+                return False, f"cargo build --lib --no-default-features{rel} --features '{feats}' failed:\n" + r2.stdout[-1500:]
     lib = open(REPO + "/src/lib.rs").read()
     if not re.search(r'#!\[cfg_attr\(\s*all\(not\(feature = "std"\), not\(doc\), not\(test\)\),\s*no_std\s*\)\]', lib):
         return False, "src/lib.rs no longer declares no_std outside std/doc/test"
@@ -676,6 +793,15 @@ def check(prop, tier, replay=None):
     STAGES.append(("cargo_build", time.time()))
     # 2. build the implementation side from the current /repo
     ok, msg = build_harness()
+    if not ok and prop == "C06":
+        ok6, txt6 = nostd_check()
+        if not ok6:
+            rp = f"{OUT}/replay/{prop}-nostd.txt"
+            open(rp, "w").write("property C06: the crate must build without the standard library\n" + txt6 + "\n")
+            log(f"VIOLATION property={prop} replay={rp}")
+            log("  (no_std build)")
+            write_evidence(prop, tier, seed, gate, {}, [], 0, 0, 0, 0, t0, 1, ["no_std build failed"])
+            return 1
     if not ok:
         rp = f"{OUT}/replay/{prop}-build.txt"
         open(rp, "w").write("the harness does not build against the current /repo:\n" + msg)
@@ -873,6 +999,23 @@ def check(prop, tier, replay=None):
                         "property is anchored in; for C05: anywhere) are not in coq/MODELLED.tsv, so the model and its "
                         "theorems no longer describe this code:\n" + "\n".join(missing) + "\n")
             violations.append(("API surface not covered by the model: " + ", ".join(missing[:4]), rp, False))
+    if not replay and not violations:
+        STAGES.append(("coverage_tie", time.time()))
+        ct = coverage_tie(prop, cpath, tmp)
+        if ct[0] is None:
+            notes.append("coverage tie not evaluated: " + str(ct[1])[:200])
+        else:
+            newreg, cinfo, _ = ct
+            notes.append("coverage tie: " + json.dumps(cinfo))
+            if newreg:
+                rp = f"{OUT}/replay/{prop}-coverage.txt"
+                with open(rp, "w") as f:
+                    f.write(f"property {prop}: these code regions of /repo/src are entered by NO correspondence run (fixed coverage "
+                            "suite, this property's cases, shape scenarios) and are not in coq/COVERAGE_KNOWN.tsv: the tie between "
+                            "the model and this code is not exercised, so the theorems do not reach it\n"
+                            + "\n".join(f"src/{a}:{ln}: `{b}`   in   {c}" for (a, b, c, ln) in newreg) + "\n")
+                violations.append((f"{len(newreg)} code regions never entered by the correspondence runs, e.g. src/{newreg[0][0]}:{newreg[0][3]}", rp, False))
+        STAGES.append(("verdict2", time.time()))
     if prop == "C06" and not replay and not violations:
         ok6, txt6 = nostd_check()
         notes.append(txt6[:200])
